@@ -16,8 +16,9 @@
    that reach a union whose hook is outside the proved fragment; message envelopes: [mm_covered_roundtrip_messages], 163 of 164 message classes) the round trip is
    validated on every run by the correspondence stream (model = real converter on every generated valid input) and the oracle
    on the real converter's results. *)
-From LSP Require Import Base MM Sem SemThy Disp Image ImageThy.
+From LSP Require Import Base MM Sem SemThy Disp Image ImageThy Denote RoundTrip HookFrag Link MMRound.
 From Gen Require Import MMData PkgData Known.
+From Props Require Import Cover.
 
 (* "equal up to the documented null rule": j' is j with, at most, explicit nulls added for absent object keys *)
 Inductive NEq : json -> json -> Prop :=
@@ -61,6 +62,25 @@ Proof.
 Qed.
 End AnyStr.
 
+(* ------------------------------------------------------------ the statement, covered part (instances of props/Cover.v) *)
+Section Covered.
+Variable pystr : json -> string.
+(* structures at the class of the same name *)
+Theorem C01_roundtrip_structures : forall s st j, find_struct mm s = Some st -> String.eqb s "LSPObject" = false -> mem s (fst cov) = true ->
+  cvalid mm (TRef s) j ->
+  exists n o j', structure Sg pystr n (PyCls s) j = Ok o /\ has_type Sg (PyCls s) o /\ unstr Sg n (Some (PyCls s)) o = Ok j' /\ RoundTrip.NEq j j'.
+Proof. exact (mm_covered_roundtrip_structures pystr). Qed.
+(* any metamodel type (aliases, arrays, maps, unions ...) at a covered annotation that is its image *)
+Theorem C01_roundtrip_any_type : forall T j p k n, cvalid mm T j -> wfp p = true -> smatch mm Sg alias_objects k (py_of mm n T) p = true ->
+  okty Sg (fst cov) (snd cov) p = true ->
+  exists n' o j', structure Sg pystr n' p j = Ok o /\ has_type Sg p o /\ unstr Sg n' (Some p) o = Ok j' /\ RoundTrip.NEq j j'.
+Proof. exact (mm_covered_roundtrip pystr). Qed.
+(* requests, responses, notifications *)
+Theorem C01_roundtrip_messages : forall tp j, In tp covered_msg_pairs -> cvalid mm (TLit (snd (fst tp))) j ->
+  exists n o j', structure Sg pystr n (PyCls (snd tp)) j = Ok o /\ has_type Sg (PyCls (snd tp)) o /\ unstr Sg n (Some (PyCls (snd tp))) o = Ok j' /\ RoundTrip.NEq j j'.
+Proof. exact (mm_covered_roundtrip_messages pystr). Qed.
+End Covered.
+
 (* non-vacuity of the statement's hypothesis: a concrete valid value *)
 Example C01_example : valid_b mm 20 (TRef "Position") (JObj [("line", JInt 1); ("character", JInt 2)]) = true.
 Proof. vm_compute. reflexivity. Qed.
@@ -70,3 +90,6 @@ Print Assumptions C01_dispatch_total.
 Print Assumptions C01_wire_names_both_directions.
 Print Assumptions C01_bad_alias_targets_are_known.
 Print Assumptions C01_never_unsupported.
+Print Assumptions C01_roundtrip_structures.
+Print Assumptions C01_roundtrip_any_type.
+Print Assumptions C01_roundtrip_messages.
